@@ -36,12 +36,16 @@ CONSTANTS
   PermTO,       \* ServerConfig.PermissionTimeout
   ChanTO,       \* ServerConfig.ChannelBindTimeout
   MaxLife,      \* maximumAllocationLifetime = 3600
-  Denied        \* {<<client, peerIP>>} refused by the operator's permission handler
+  Denied,       \* {<<client, peerIP>>} refused by the operator's permission handler
+  Toks,         \* EVEN-PORT / RESERVATION-TOKEN classes tried in Allocate: "none", "even" (EVEN-PORT), "bogus"
+                \* (a token nobody issued), or a client name (the token most recently issued to that client)
+  ResvTO        \* lifetime of a reservation: 30 s
 
-VARIABLES alloc, perm, chan, out, last
+VARIABLES alloc, perm, chan, resv, out, last
 
-vars  == <<alloc, perm, chan, out, last>>
-state == <<alloc, perm, chan>>
+\* resv[c]: seconds left of the reservation (relayed port + 1) made by c's last EVEN-PORT allocation, 0 = none
+vars  == <<alloc, perm, chan, resv, out, last>>
+state == <<alloc, perm, chan, resv>>
 
 Peers    == PeerIPs \X PeerPorts
 NoAlloc  == [live |-> FALSE]
@@ -65,6 +69,7 @@ Init ==
   /\ alloc = [c \in Clients |-> NoAlloc]
   /\ perm  = [c \in Clients |-> NoPerms]
   /\ chan  = [c \in Clients |-> NoChans]
+  /\ resv  = [c \in Clients |-> 0]
   /\ out   = {}
   /\ last  = [a |-> "Init"]
 
@@ -80,26 +85,39 @@ Binding(c) ==
   /\ out' = {[k |-> "resp", to |-> c, m |-> "Binding", cls |-> "ok", code |-> 0, mapped |-> c]}
   /\ last' = [a |-> "Binding", c |-> c]
 
-(* handleAllocateRequest, authenticated as u.                              *)
-Allocate(c, u, lr, tx, rf) ==
-  /\ last' = [a |-> "Allocate", c |-> c, u |-> u, lr |-> lr, tx |-> tx, rf |-> rf]
+(* handleAllocateRequest, authenticated as u.  tk: "none" | "even" (EVEN-PORT) | "bogus" | a client *)
+(* name d (RESERVATION-TOKEN issued to d).  alloc[c].port is the class of the relayed port:        *)
+(* <<"any">>, <<"even">> (it reserved the next port) or <<"next", d>> (the port d reserved).        *)
+NextHeld(d) == \E x \in Clients : alloc[x].live /\ alloc[x].port = <<"next", d>>
+\* environment restriction (not code behaviour): a client asks for EVEN-PORT again only when its
+\* earlier reservation is gone, so that "the token of d" names one port
+EvenOK(c) == resv[c] = 0 /\ ~NextHeld(c)
+Allocate(c, u, lr, tx, rf, tk) ==
+  /\ tk = "even" => EvenOK(c)
+  /\ last' = [a |-> "Allocate", c |-> c, u |-> u, lr |-> lr, tx |-> tx, rf |-> rf, tk |-> tk]
   /\ IF Live(c)
        THEN /\ UNCHANGED state
             /\ out' = IF alloc[c].tx = tx
-                        THEN \* retransmission: the cached success again, nothing created
+                        THEN \* retransmission: the cached success again (token included), nothing created
                              {[k |-> "resp", to |-> c, m |-> "Allocate", cls |-> "ok", code |-> 0,
-                               mapped |-> c, relay |-> c, life |-> -2]}
+                               mapped |-> c, relay |-> c, life |-> -2, port |-> alloc[c].port]}
                         ELSE {Err(c, "Allocate", 437)}
-       ELSE IF rf \notin {0, 4, 6}
-         THEN UNCHANGED state /\ out' = {Err(c, "Allocate", 440)}
-         ELSE IF Granted(lr) = 0
-           THEN \* CreateAllocation refuses a zero lifetime: 508, nothing created
-                UNCHANGED state /\ out' = {Err(c, "Allocate", 0)}
-           ELSE /\ alloc' = [alloc EXCEPT ![c] =
-                     [live |-> TRUE, user |-> u, fam |-> FamOf(c, rf), rem |-> Granted(lr), tx |-> tx]]
-                /\ UNCHANGED <<perm, chan>>
-                /\ out' = {[k |-> "resp", to |-> c, m |-> "Allocate", cls |-> "ok", code |-> 0,
-                            mapped |-> c, relay |-> c, life |-> Granted(lr)]}
+       ELSE IF tk = "bogus" \/ (tk \in Clients /\ resv[tk] = 0)
+         THEN UNCHANGED state /\ out' = {Err(c, "Allocate", 508)}        \* unknown / expired token
+         ELSE IF rf \notin {0, 4, 6}
+           THEN UNCHANGED state /\ out' = {Err(c, "Allocate", 440)}
+           ELSE IF tk \in Clients /\ rf # 0
+             THEN UNCHANGED state /\ out' = {Err(c, "Allocate", 400)}    \* token and family are mutually exclusive
+             ELSE IF Granted(lr) = 0 \/ (tk \in Clients /\ NextHeld(tk))
+               THEN \* zero lifetime, or the reserved port is in use: 508, nothing created
+                    UNCHANGED state /\ out' = {Err(c, "Allocate", 0)}
+               ELSE LET port == IF tk = "even" THEN <<"even">> ELSE IF tk \in Clients THEN <<"next", tk>> ELSE <<"any">> IN
+                    /\ alloc' = [alloc EXCEPT ![c] =
+                         [live |-> TRUE, user |-> u, fam |-> FamOf(c, rf), rem |-> Granted(lr), tx |-> tx, port |-> port]]
+                    /\ resv' = IF tk = "even" THEN [resv EXCEPT ![c] = ResvTO] ELSE resv
+                    /\ UNCHANGED <<perm, chan>>
+                    /\ out' = {[k |-> "resp", to |-> c, m |-> "Allocate", cls |-> "ok", code |-> 0,
+                                mapped |-> c, relay |-> c, life |-> Granted(lr), port |-> port]}
 
 (* handleRefreshRequest.  rf: REQUESTED-ADDRESS-FAMILY (0 = absent).        *)
 Refresh(c, u, lr, rf) ==
@@ -112,9 +130,10 @@ Refresh(c, u, lr, rf) ==
            THEN /\ alloc' = [alloc EXCEPT ![c] = NoAlloc]
                 /\ perm'  = [perm EXCEPT ![c] = NoPerms]
                 /\ chan'  = [chan EXCEPT ![c] = NoChans]
+                /\ UNCHANGED resv
                 /\ out'   = {[k |-> "resp", to |-> c, m |-> "Refresh", cls |-> "ok", code |-> 0, life |-> 0]}
            ELSE /\ alloc' = [alloc EXCEPT ![c].rem = Granted(lr)]
-                /\ UNCHANGED <<perm, chan>>
+                /\ UNCHANGED <<perm, chan, resv>>
                 /\ out'   = {[k |-> "resp", to |-> c, m |-> "Refresh", cls |-> "ok", code |-> 0,
                               life |-> Granted(lr)]}
 
@@ -134,7 +153,7 @@ CreatePermission(c, u, ips) ==
        ELSE LET fr   == FirstRefused(c, ips)
                 inst == {ips[k] : k \in 1..(fr - 1)}
             IN /\ perm' = [perm EXCEPT ![c] = [i \in PeerIPs |-> IF i \in inst THEN PermTO ELSE @[i]]]
-               /\ UNCHANGED <<alloc, chan>>
+               /\ UNCHANGED <<alloc, chan, resv>>
                /\ out' = IF fr > Len(ips)
                            THEN {Ok(c, "CreatePermission")}
                            ELSE {Err(c, "CreatePermission", 0)}
@@ -152,7 +171,7 @@ ChannelBind(c, u, n, p) ==
            THEN UNCHANGED state /\ out' = {Err(c, "ChannelBind", 400)}
            ELSE /\ chan' = [chan EXCEPT ![c][n] = [bound |-> TRUE, peer |-> p, rem |-> ChanTO]]
                 /\ perm' = [perm EXCEPT ![c][p[1]] = PermTO]       \* with the permission timeout
-                /\ UNCHANGED alloc
+                /\ UNCHANGED <<alloc, resv>>
                 /\ out'  = {Ok(c, "ChannelBind")}
 
 (* Wire sizes (bytes) of the client's messages as the harness builds them: ChannelData is a  *)
@@ -207,6 +226,7 @@ Rems ==
   {alloc[c].rem : c \in {x \in Clients : alloc[x].live}}
   \cup UNION {{perm[c][i] : i \in {j \in PeerIPs : perm[c][j] > 0}} : c \in Clients}
   \cup UNION {{chan[c][n].rem : n \in {m \in ChanNums : chan[c][m].bound}} : c \in Clients}
+  \cup {resv[c] : c \in {x \in Clients : resv[x] > 0}}
 MinRem == CHOOSE m \in Rems : \A r \in Rems : m <= r
 Jumps  == IF Rems = {} THEN {} ELSE {1, MinRem - 1, MinRem} \ {0}
 
@@ -222,12 +242,13 @@ Advance(d) ==
      /\ chan'  = [c \in Clients |-> [n \in ChanNums |->
                     IF c \in dead \/ ~chan[c][n].bound \/ chan[c][n].rem <= d THEN NoChan
                     ELSE [chan[c][n] EXCEPT !.rem = @ - d]]]
+     /\ resv'  = [c \in Clients |-> IF resv[c] <= d THEN 0 ELSE resv[c] - d]
   /\ out' = {}
 
 ---------------------------------------------------------------------------
 Next ==
   \/ \E c \in Clients : Binding(c)
-  \/ \E c \in Clients, u \in Users, lr \in LifeReqs, tx \in Txids, rf \in ReqFams : Allocate(c, u, lr, tx, rf)
+  \/ \E c \in Clients, u \in Users, lr \in LifeReqs, tx \in Txids, rf \in ReqFams, tk \in Toks : Allocate(c, u, lr, tx, rf, tk)
   \/ \E c \in Clients, u \in Users, lr \in LifeReqs, rf \in ReqFams : Refresh(c, u, lr, rf)
   \/ \E c \in Clients, u \in Users, ips \in PermSeqs : CreatePermission(c, u, ips)
   \/ \E c \in Clients, u \in Users, n \in ChanNums, p \in Peers : ChannelBind(c, u, n, p)
@@ -298,7 +319,7 @@ Actor == IF "c" \in DOMAIN last' THEN {last'.c} ELSE {}
 C04_Isolation ==
   [][last'.a # "Advance" =>
        /\ \A d \in Clients \ Actor :
-            alloc'[d] = alloc[d] /\ perm'[d] = perm[d] /\ chan'[d] = chan[d]
+            alloc'[d] = alloc[d] /\ perm'[d] = perm[d] /\ chan'[d] = chan[d] /\ resv'[d] = resv[d]
        /\ \A o \in out' : (o.k \in {"resp", "toclient"} => o.to \in Actor)
                        /\ (o.k = "topeer" => o.from \in Actor)]_vars
 
@@ -335,6 +356,14 @@ C08_Conflict400 ==
         /\ \/ (chan[last'.c][last'.n].bound /\ chan[last'.c][last'.n].peer # last'.p)
            \/ (ChanOfPeer(last'.c, last'.p) \ {last'.n} # {}))
       => UNCHANGED state /\ out' = {Err(last'.c, "ChannelBind", 400)}]_vars
+
+\* C19: a reserved port is handed to at most one live allocation, and only while the reservation lives
+C19_ReservedOnce ==
+  \A c1, c2 \in Clients : (alloc[c1].live /\ alloc[c2].live /\ c1 # c2 /\ alloc[c1].port[1] = "next")
+                             => alloc[c1].port # alloc[c2].port
+C19_TokenNeedsReservation ==
+  [][\A o \in out' : (o.k = "resp" /\ o.cls = "ok" /\ last'.a = "Allocate" /\ last'.tk \in Clients /\ o.life # -2)
+        => resv[last'.tk] > 0]_vars
 
 \* C19: one allocation per 5-tuple is structural (alloc is a function of the 5-tuple); a second
 \* Allocate changes nothing
